@@ -451,3 +451,26 @@ def correspond(chk, name, imports, case_type, check_fn, cases, pred_fail, descri
                           f"holds on all of them", {"correspondence": name, "first_disagreeing_case": describe(i),
                                                     "disagreeing_indices": bad[:20]}, m)
     return bad
+
+
+def translator_lemma(chk, anchor, reader, render, imports):
+    """Second tie: regenerate a Gallina fact from /repo's current source and re-check a lemma on it.
+    reader() -> fact (raises translate.Unavailable); render(fact) -> Coq text containing the lemma(s)."""
+    import translate
+    try:
+        fact = reader()
+    except translate.Unavailable as e:
+        chk.extra.setdefault("translator", {})[anchor] = f"unavailable:{e}"
+        return None
+    except (SyntaxError, FileNotFoundError) as e:
+        chk.extra.setdefault("translator", {})[anchor] = f"unavailable:{type(e).__name__}"
+        return None
+    chk.extra.setdefault("translator", {})[anchor] = fact
+    d = rundir(chk.pid)
+    path = os.path.join(d, f"Gen_{anchor}.v")
+    with open(path, "w") as f:
+        f.write(imports + "\n" + render(fact) + "\n")
+    rc, out = coqc_file(path, timeout=300)
+    chk.oblige("translator-lemma", f"Gen_{anchor}", rc == 0,
+               "regenerated from /repo source and re-proved" if rc == 0 else out[-800:])
+    return fact
